@@ -76,6 +76,8 @@ def local_names(f: FuncInfo) -> set[str]:
 
 def run(chk: Check, eng: Engine) -> None:
     chk.rule("R18-a", "every binding that outlives an instance and has a writer and a reader reachable from the public API is in the frozen table of harmless channels", floor=12)
+    chk.rule("R18-c", "module-level containers of the command layer are written only by the commands that declare them global; helpers they are lent to do not write into them", floor=3)
+    lent_globals_rule(chk, eng, "R18-c")
     chk.rule("R18-b", "the adaptive tuner keeps the limits it adapts on the instance (writes only self.*)", floor=3)
     chk.not_decided += ["leakage through the on-disk spec cache (disabled in parse_content) or third-party modules", "the process-global `random` state (the property is stated under fixed seeds)"]
 
@@ -418,6 +420,79 @@ def run(chk: Check, eng: Engine) -> None:
             chk.ok("R18-b", m.fq, m.line, f"AdaptiveTuner.{name} writes only self.* / locals")
 
 
+def lent_globals_rule(chk: Check, eng: Engine, rule: str) -> None:
+    """Module-level containers of the command layer (`DEFAULT_SETTINGS`, `DEFAULT_CONSTRAINTS`) are what `set` stores for later commands.  A
+    command hands them to helpers as *defaults*; a helper that writes into the mapping it was given - directly, through `x = p or {}` / `x = p`,
+    or by passing that alias to another helper that writes - turns one command's options into every later command's defaults (`-S <sym>` of
+    one parse becomes the start symbol of the next).  Only the functions that declare the global (`global X`) may write it."""
+    MUT = {"update", "setdefault", "pop", "clear", "append", "extend", "insert", "add", "remove", "__setitem__"}
+
+    def param_writes(f: FuncInfo, param: str, depth: int = 0, seen: Optional[set] = None) -> Optional[tuple[int, str]]:
+        seen = seen if seen is not None else set()
+        if (f.fq, param) in seen or depth > 3:
+            return None
+        seen.add((f.fq, param))
+        aliases = {param}
+        grew = True
+        while grew:
+            grew = False
+            for a in walk_local(f.node):
+                if isinstance(a, ast.Assign) and len(a.targets) == 1 and isinstance(a.targets[0], ast.Name) and a.targets[0].id not in aliases:
+                    v = a.value
+                    cands = [v] + (list(v.values) if isinstance(v, ast.BoolOp) else []) + ([v.body, v.orelse] if isinstance(v, ast.IfExp) else [])
+                    if any(isinstance(c, ast.Name) and c.id in aliases for c in cands):
+                        aliases.add(a.targets[0].id)
+                        grew = True
+        mod = eng.ix.modules[f.module]
+        for x in walk_local(f.node):
+            if isinstance(x, ast.Assign):
+                for t in x.targets:
+                    if isinstance(t, ast.Subscript) and isinstance(t.value, ast.Name) and t.value.id in aliases:
+                        return x.lineno, f"`{short(x, 50)}` in {f.qualname}"
+            if isinstance(x, ast.Call) and isinstance(x.func, ast.Attribute) and x.func.attr in MUT and isinstance(x.func.value, ast.Name) and x.func.value.id in aliases:
+                return x.lineno, f"`{short(x, 50)}` in {f.qualname}"
+            if isinstance(x, ast.Call) and isinstance(x.func, ast.Name):
+                g = eng.ix.resolve_name(mod, x.func.id)
+                if isinstance(g, FuncInfo):
+                    ps = g.params()
+                    for i, a in enumerate(x.args):
+                        if isinstance(a, ast.Name) and a.id in aliases and i < len(ps):
+                            r = param_writes(g, ps[i], depth + 1, seen)
+                            if r:
+                                return r
+        return None
+
+    n = 0
+    for mod in eng.ix.modules.values():
+        if not mod.name.startswith("fandango.cli"):
+            continue
+        containers = {nm for nm, vals in mod.globals_assigned.items() if any(isinstance(getattr(v, "value", v), (ast.Dict, ast.List, ast.Set)) for v in vals)}
+        if not containers:
+            continue
+        for f in mod.functions.values():
+            declared = {g_ for st in walk_local(f.node) if isinstance(st, ast.Global) for g_ in st.names}
+            for c in walk_local(f.node):
+                if not (isinstance(c, ast.Call) and isinstance(c.func, ast.Name)):
+                    continue
+                callee = eng.ix.resolve_name(mod, c.func.id)
+                if not isinstance(callee, FuncInfo):
+                    continue
+                ps = callee.params()
+                bound = [(ps[i], a) for i, a in enumerate(c.args) if i < len(ps)] + [(k.arg, k.value) for k in c.keywords if k.arg]
+                for pname, a in bound:
+                    if isinstance(a, ast.Name) and a.id in containers and a.id not in declared:
+                        n += 1
+                        w = param_writes(callee, pname)
+                        if w:
+                            chk.bad(rule, eng.relfile(f), c.lineno, f.fq, f"`{short(c, 60)}` lends the module-level `{a.id}` to {callee.qualname}, which writes into it ({w[1]})",
+                                    "what one command was given on its command line becomes the default of every later command of the session: after `parse -S <word> ...` a plain `parse` "
+                                    "parses from <word> - it accepts inputs outside the language of <start> and rejects valid ones", keyparts=f"lent-global-written|{a.id}|{callee.qualname}")
+                        else:
+                            chk.ok(rule, f.fq, c.lineno, f"`{short(c, 50)}`: {callee.qualname} does not write into the `{a.id}` it is lent")
+    if n < 3:
+        raise AnalysisError(f"only {n} call sites lending a module-level container of the command layer found")
+
+
 def attr_mutations(ix, attrs: set[str]) -> list[str]:
     out = []
     for f in ix.all_functions:
@@ -473,6 +548,7 @@ _G = "src/fandango/language/grammar/grammar.py"
 _P = "src/fandango/language/grammar/parser/parser.py"
 _CMP = "src/fandango/constraints/comparison.py"
 MUTANTS = [
+    M("settings-helper-writes-into-the-defaults", "src/fandango/cli/utils.py", "    settings = initial_settings.copy()\n", "    settings = initial_settings or {}\n", "R18-c"),
     M("shared-default-operator-gets-state", "src/fandango/evolution/algorithm.py", "        self.mutation_method = mutation_method\n",
       "        self.mutation_method = mutation_method\n        self.mutation_method.max_nodes = min(getattr(self.mutation_method, \"max_nodes\", 50), max_nodes)\n", "R18-a"),
     M("module-level-solution-set", _EV, "        self._solution_set: set[int] = set()\n", "        self._solution_set: set[int] = _SEEN_SOLUTIONS\n", "R18-a",
